@@ -6,6 +6,7 @@ import (
 	"fmt"
 	"io"
 	"net"
+	"sync"
 
 	"github.com/junegunn/fzf/src/algo"
 	"github.com/junegunn/fzf/src/tui"
@@ -411,4 +412,20 @@ func VerifParseSingleActionList(str string) ([]string, error) {
 		return nil, err
 	}
 	return verifActionNames(actions), nil
+}
+
+// --- reader.go (walker) ---
+
+// VerifReadFiles runs the built-in walker (Reader.readFiles) and returns the pushed paths.
+func VerifReadFiles(roots []string, file bool, dir bool, hidden bool, follow bool, ignores []string) []string {
+	var mu sync.Mutex
+	out := []string{}
+	r := NewReader(func(data []byte) bool {
+		mu.Lock()
+		out = append(out, string(data))
+		mu.Unlock()
+		return true
+	}, util.NewEventBox(), nil, false, false)
+	r.readFiles(roots, walkerOpts{file: file, dir: dir, hidden: hidden, follow: follow}, ignores)
+	return out
 }
